@@ -461,6 +461,7 @@ func (rr *repRun) release(n int) {
 func (rr *repRun) run() {
 	s := rr.s
 	w := simrt.NewWorld(s.Seed, synctest.Wait)
+	w.StrictLocks = os.Getenv("VERIF_LOOSE_LOCKS") == ""
 	defer w.Close()
 	rr.w = w
 	w.TraceOn = os.Getenv("VERIF_TRACE") != ""
